@@ -1311,8 +1311,13 @@ func (x *Exec) specCall(env *SpecEnv, n *ECall) TV {
 		return mkSpecInt(v)
 	case "gf": // ghost field of an object: gf(ptr, name) : int
 		a := arg(0)
-		p, ok := a.V.(*PtrV)
-		if !ok {
+		var ref *Term
+		switch p := a.V.(type) {
+		case *PtrV:
+			ref = p.Ref
+		case *IfaceV:
+			ref = p.Ref // the object an interface value holds
+		default:
 			specFail("gf() needs a pointer")
 		}
 		id, ok := n.Args[1].(*EIdent)
@@ -1320,7 +1325,7 @@ func (x *Exec) specCall(env *SpecEnv, n *ECall) TV {
 			specFail("gf(ptr, fieldname)")
 		}
 		arr := x.heapArr(st, "GF:"+id.Name, SInt, SBV64)
-		return TV{Select(arr, p.Ref), types.Typ[types.Int]}
+		return TV{Select(arr, ref), types.Typ[types.Int]}
 	case "val": // *big.Int value
 		a := arg(0)
 		p, ok := a.V.(*PtrV)
